@@ -789,6 +789,36 @@ func (ex *Exec) jump(s *State, fr *Frame, from, to *ssa.BasicBlock) {
 	if l := ex.prog.LoopsOf(fr.fn).ByHead[from]; l != nil && !l.Blocks[to] && !s.dead {
 		if spec := ex.loopSpecFor(fr, from); spec != nil && len(spec.ExitEnsures) > 0 {
 			fnName := normName(fr.fn.RelString(ex.prog.SSA.Pkg))
+			// a bottom-tested loop is left from its latch: the loop variables have their
+			// next-iteration values (the back-edge operands of the head's phis)
+			for pi, p := range from.Preds {
+				if p != from {
+					continue
+				}
+				saved := s.names
+				s.names = make(map[string]Value, len(saved))
+				for k, v := range saved {
+					s.names[k] = v
+				}
+				var ctl Value
+				for _, in := range from.Instrs {
+					phi, ok := in.(*ssa.Phi)
+					if !ok {
+						break
+					}
+					v := ex.val(fr, phi.Edges[pi])
+					if phi.Comment != "" {
+						s.names[phi.Comment] = v
+					}
+					if alias := loopAlias(l, spec); alias == phi {
+						ctl = v
+					}
+				}
+				if ctl != nil && spec.Var != "" {
+					s.names[spec.Var] = ctl
+				}
+				defer func() { s.names = saved }()
+			}
 			env := &SpecEnv{ex: ex, cur: s, old: ex.entryOf(fr), vars: map[string]Value{}, fn: fr.fn, fr: fr}
 			for i, c := range spec.ExitEnsures {
 				label := c.Label
@@ -838,8 +868,26 @@ func (ex *Exec) atLoopHead(s *State, fr *Frame, b *ssa.BasicBlock, l *Loop) bool
 		}
 		return false
 	}
+	// bottom-tested loops (range-over-int, do-while shapes): every edge into the head is the true
+	// branch of the same comparison between the incoming value of a head phi and a loop-invariant
+	// bound, so that comparison holds at the head. It is added as an invariant of its own (proved
+	// at entry and preservation from the edge's branch condition, assumed at the head).
+	gPhi, gOp, gBound := bottomTestedGuard(b, l)
+	autoGuard := func(st *State) (Term, bool) {
+		if gPhi == nil {
+			return Term{}, false
+		}
+		bv, ok := ex.binop(st, fr, gOp, fr.env[gPhi], ex.val(fr, gBound), types.Typ[types.Bool], gPhi.Type(), gPhi).(BoolV)
+		if !ok {
+			return Term{}, false
+		}
+		return bv.T, true
+	}
 	// bind phi values for this edge so invariants can talk about the loop variables
 	evalInv := func(st *State, phase string) {
+		if g, ok := autoGuard(st); ok {
+			ex.emit(st, "invariant", fmt.Sprintf("%s/%s/loop%d/auto_guard/%s", ex.layer, fnName, l.Ordinal, phase), g, l.Pos, "loop guard of a bottom-tested loop holds at its head")
+		}
 		env := &SpecEnv{ex: ex, cur: st, old: ex.entryOf(fr), vars: map[string]Value{}, fn: fr.fn, fr: fr}
 		for i, inv := range spec.Invariants {
 			label := inv.Label
@@ -924,6 +972,9 @@ func (ex *Exec) atLoopHead(s *State, fr *Frame, b *ssa.BasicBlock, l *Loop) bool
 		}
 	}
 	env := &SpecEnv{ex: ex, cur: s, old: ex.entryOf(fr), vars: map[string]Value{}, fn: fr.fn, fr: fr}
+	if g, ok := autoGuard(s); ok {
+		s.assume(g)
+	}
 	for _, inv := range spec.Invariants {
 		s.assume(env.evalAssume(inv.Expr))
 	}
@@ -1802,4 +1853,76 @@ func replaceWord(s, from, to string) string {
 		i++
 	}
 	return b.String()
+}
+
+// bottomTestedGuard recognises loops whose head is entered only through true branches of one
+// comparison "incoming value of a head phi  OP  loop-invariant bound" (go/ssa's lowering of
+// range-over-int; do-while shapes).
+func bottomTestedGuard(head *ssa.BasicBlock, l *Loop) (*ssa.Phi, token.Token, ssa.Value) {
+	if len(head.Preds) < 2 {
+		return nil, token.ILLEGAL, nil
+	}
+	var phis []*ssa.Phi
+	for _, in := range head.Instrs {
+		phi, ok := in.(*ssa.Phi)
+		if !ok {
+			break
+		}
+		phis = append(phis, phi)
+	}
+	for _, phi := range phis {
+		var op token.Token
+		var bound ssa.Value
+		ok := true
+		for pi, p := range head.Preds {
+			if len(p.Instrs) == 0 {
+				ok = false
+				break
+			}
+			iff, isIf := p.Instrs[len(p.Instrs)-1].(*ssa.If)
+			if !isIf || len(p.Succs) != 2 || p.Succs[0] != head || p.Succs[1] == head {
+				ok = false
+				break
+			}
+			cmp, isCmp := iff.Cond.(*ssa.BinOp)
+			if !isCmp || !sameSSAValue(cmp.X, phi.Edges[pi]) {
+				ok = false
+				break
+			}
+			switch cmp.Op {
+			case token.LSS, token.LEQ, token.GTR, token.GEQ, token.NEQ:
+			default:
+				ok = false
+			}
+			if !ok {
+				break
+			}
+			if bound == nil {
+				op, bound = cmp.Op, cmp.Y
+			} else if op != cmp.Op || bound != cmp.Y {
+				ok = false
+				break
+			}
+		}
+		if ok && bound != nil {
+			// the bound must be defined outside the loop
+			if in, isInstr := bound.(ssa.Instruction); isInstr && l.Blocks[in.Block()] {
+				continue
+			}
+			return phi, op, bound
+		}
+	}
+	return nil, token.ILLEGAL, nil
+}
+
+func sameSSAValue(a, b ssa.Value) bool {
+	if a == b {
+		return true
+	}
+	ca, ok1 := a.(*ssa.Const)
+	cb, ok2 := b.(*ssa.Const)
+	if ok1 && ok2 && ca.Value != nil && cb.Value != nil {
+		return types.Identical(ca.Type(), cb.Type()) && ca.Value.ExactString() == cb.Value.ExactString()
+	}
+	return false
 }
